@@ -13,6 +13,10 @@ where
         for i in 0..part.variables.len() {
             let (v, pow) = &part.variables[i];
             if v == var {
+                if *pow == 0.0 {
+                    // x^0 is constant: the term vanishes (not 0 * x^-1, which is NaN at 0)
+                    break;
+                }
                 // Power rule
                 new_part.coefficient = part.coefficient * (*pow);
                 let new_power = pow - 1.0;
